@@ -281,6 +281,20 @@ def run(ctx):
                   "answer records come from an answering result",
                   "a local referral's NS records (owner: the delegation point) are returned as `rrs`, which the server places in the ANSWER section", conv.loc(b, i))
 
+    # every UDP datagram of up to 512 octets is received whole: the receive buffer holds at least 512
+    ub = prog.body_of("resolved::listen_udp_task")
+    ubr = A.Resolver(ub)
+    recvs = [ubr.call_expr(t, b) for b, t in ub.calls() if (t.get("callee") or "").endswith("UdpSocket::recv_from")]
+    sizes = []
+    for e in recvs:
+        for x in A.walk(e[2][1]):
+            if x[0] == "call" and x[1].endswith("vec::from_elem") and len(x[2]) == 2 and A.peel(x[2][1])[0] == "const":
+                sizes.append(A.peel(x[2][1])[2])
+            if x[0] == "array" or (x[0] == "call" and x[1].endswith("with_capacity")):
+                pass
+    ctx.check(bool(recvs) and len(sizes) == len(recvs) and all(isinstance(n_, int) and n_ >= 512 for n_ in sizes), "C09.5", "listen_udp_task:receive-buffer",
+              "recv_from reads into a buffer of at least 512 octets", "UDP receive buffer sizes: %s (a 512-octet query would be cut)" % sizes, ub.loc())
+
     # ---------------------------------------------------------------- C09.5
     for name in ("send_udp_bytes", "send_udp_bytes_to"):
         f = prog.body_of(NET + name)
